@@ -36,8 +36,8 @@ static bool holds2(const D *d)
   const long diff = (long)X[d->to] - (long)X[d->from];
 #ifdef RDL
   const rational q = d->dist.get_rational(), e = d->dist.get_infinitesimal();
-  const long two_q = 2 * q.numerator() / q.denominator(); // constants have denominator 1 or 2
-  return is_negative(e) ? diff < two_q : diff <= two_q;
+  // diff / 2 <= q  <=>  diff * den <= 2 * num   (den > 0)
+  return is_negative(e) ? diff * q.denominator() < 2 * q.numerator() : diff * q.denominator() <= 2 * q.numerator();
 #else
   return diff <= 2 * d->dist;
 #endif
@@ -73,8 +73,8 @@ static bool in_matrix(TH &th)
 #ifdef RDL
     const inf_rational d = th._dists[i][j];
     if (is_infinite(d)) continue;
-    const long two_q = 2 * d.get_rational().numerator() / d.get_rational().denominator();
-    ok = ok & (is_negative(d.get_infinitesimal()) ? (long)X[j] - X[i] < two_q : (long)X[j] - X[i] <= two_q);
+    const long dn = d.get_rational().numerator(), dd = d.get_rational().denominator();
+    ok = ok & (is_negative(d.get_infinitesimal()) ? ((long)X[j] - X[i]) * dd < 2 * dn : ((long)X[j] - X[i]) * dd <= 2 * dn);
 #else
     if (th._dists[i][j] == TH::inf()) continue;
     ok = ok & ((long)X[j] - X[i] <= 2 * th._dists[i][j]);
